@@ -628,7 +628,9 @@ def _one_subscription(case, o, sub_s, explicit, emits, bud, need, n, cls, k):
         elif cfg.startswith("ct_fresh"):
             sig = "no-return|fresh-current-thread-scheduler"
         elif termev is None and n_out == 0 and n >= 1:
-            sig = f"no-return:starved|{src}"
+            # call-site specific: the wrapper through which the producer starves is part of the root cause, so a listed
+            # starvation (e.g. from_iterable under flat_map_of) cannot mask a new one (e.g. under with_latest_from_of)
+            sig = f"no-return:starved|{src}|{case['wrap'] or 'none'}"
         else:
             sig = f"no-return:not-cancelled|{src}"
     else:
